@@ -31,6 +31,7 @@ inductive Ty
   | ndarray
   | forwardRef (s : String)
   | unsupported (what : String)
+  | valueOrList (arg : Option Ty)          -- `pane.types.ValueOrList` / `ValueOrList[T]` (a `HasConverter` class)
   deriving Repr, Inhabited
 
 inductive BuildErr
@@ -95,10 +96,11 @@ def Ty.head : Ty → String
   | .literal _ => "Literal" | .enum n => n | .sub n _ => n | .structLit _ _ => "dict" | .tupleLit _ => "tuple"
   | .cls n _ => n | .annotated _ _ => "Annotated" | .typeVar n _ _ => n | .pattern _ => "Pattern"
   | .ndarray => "ndarray" | .forwardRef _ => "ForwardRef" | .unsupported w => w
+  | .valueOrList _ => "ValueOrList"
 
 def Ty.nargs : Ty → Nat
   | .seq _ (some _) => 1 | .tupleFixed ts => ts.length | .mapping _ as => as.length
-  | .cls _ as => as.length | .pattern (some _) => 1 | _ => 0
+  | .cls _ as => as.length | .pattern (some _) => 1 | .valueOrList (some _) => 1 | _ => 0
 
 def seqKind (origin : String) : Option String := Facts.abstractMapping.lookup origin
 
@@ -222,6 +224,17 @@ def mkTy (env : Env) (mkCls : ClassEntry → Handlers → Except BuildErr Conv) 
       match env.classes.find? (·.key == clsKey name args) with
       | some ce => mkCls ce H
       | none => .error (.typeError ("unknown class " ++ clsKey name args))
+  | .valueOrList arg =>
+    -- the `HasConverter` rank (as `.cls`): after the passed handlers, before the scalar table.
+    -- `ValueOrList._converter(*args, handlers)` builds `ValueOrListConverter(args[0] or Any, handlers)`, whose
+    -- members are `make_converter(T, handlers)` and `make_converter(List[T], handlers)`.
+    -- (Not modelled: a passed handler that answers for `list` itself would replace the second member.)
+    match H.answer "ValueOrList" (if arg.isSome then 1 else 0) with
+    | some id => .ok (.custom id)
+    | none =>
+      match arg with
+      | some a => (mkTy env mkCls H a).map .vol
+      | none => .ok (.vol .any)
   | .ndarray =>
     match H.answer "ndarray" 0 with
     | some id => .ok (.custom id)
@@ -253,11 +266,17 @@ def mkTy (env : Env) (mkCls : ClassEntry → Handlers → Except BuildErr Conv) 
   | .tupleFixed ts =>
     match H.answer "tuple" ts.length with
     | some id => .ok (.custom id)
-    | none => (exAll (mkTys env mkCls H ts)).map .tuple
+    | none =>
+      match (env.registered.findSome? fun h => h.answer "tuple" ts.length) with
+      | some id => .ok (.custom id)
+      | none => (exAll (mkTys env mkCls H ts)).map .tuple
   | .seq origin arg =>
     match H.answer origin (if arg.isSome then 1 else 0) with
     | some id => .ok (.custom id)
     | none =>
+      match (env.registered.findSome? fun h => h.answer origin (if arg.isSome then 1 else 0)) with
+      | some id => .ok (.custom id)
+      | none =>
       match seqKind origin with
       | none => .error (.typeError ("No converter for abstract type '" ++ origin ++ "'"))
       | some kind =>
@@ -268,6 +287,9 @@ def mkTy (env : Env) (mkCls : ClassEntry → Handlers → Except BuildErr Conv) 
     match H.answer origin args.length with
     | some id => .ok (.custom id)
     | none =>
+      match (env.registered.findSome? fun h => h.answer origin args.length) with
+      | some id => .ok (.custom id)
+      | none =>
       match seqKind origin with
       | none => .error (.typeError ("No converter for abstract type '" ++ origin ++ "'"))
       | some kind =>
